@@ -667,6 +667,26 @@ func c10child(p *Program, r *Report, rule string) {
 			}
 		}
 	}
+	for _, s := range []struct{ fn, field string }{{"msgReader.reset", "msgReader.ctx"}, {"msgWriter.reset", "msgWriter.ctx"}} {
+		fn := p.Func(s.fn)
+		if fn == nil {
+			continue
+		}
+		s := s
+		p.forAllPaths(r, rule+".reset", fn, "every message installs its own ctx", Opts{}, s.fn+" stores "+s.field+" = ctx unconditionally whenever it succeeds (a later message must never run under an earlier call's context)", func(pa *Path) (bool, string) {
+			if s.fn == "msgWriter.reset" {
+				if ok, known := decidedLike(pa, "call:mu.lock@@ == nil"); known && !ok {
+					return true, ""
+				}
+			}
+			for _, e := range pa.Events {
+				if e.Kind == "store" && e.AddrK == s.field && e.Val.Key() == "param:ctx" {
+					return true, ""
+				}
+			}
+			return false, s.field + " not set to the call's ctx on this path"
+		})
+	}
 	// deriving functions do not arm
 	for _, name := range []string{"Conn.handleControl", "Conn.writeControl", "Conn.writeClose", "Conn.waitCloseHandshake"} {
 		fn := p.Func(name)
@@ -707,6 +727,13 @@ func runC20(p *Program, r *Report) {
 		"xsync.Go|go xsync.Go$1":          "xsync.Go has no library caller",
 	}
 	n := 0
+	wantCount := map[string]int{"newConn|go Conn.timeoutLoop": 1, "Conn.CloseRead|go Conn.CloseRead$1": 1, "NetConn|time.AfterFunc": 2, "dial$1|time.AfterFunc": 1, "xsync.Go|go xsync.Go$1": 1}
+	gotCount := map[string]int{}
+	defer func() {
+		for k, w := range wantCount {
+			r.Check("C20.inventory", strings.SplitN(k, "|", 2)[0], "count of "+strings.SplitN(k, "|", 2)[1], "-", gotCount[k] == w, "each frozen spawn site occurs exactly the expected number of times (a second `go c.timeoutLoop()` would close the done channel twice and leave a watcher behind)", fmt.Sprintf("found %d, expected %d", gotCount[k], w))
+		}
+	}()
 	for _, cs := range p.CallSites() {
 		fname := p.FuncName(cs.Fn)
 		key := ""
@@ -718,6 +745,7 @@ func runC20(p *Program, r *Report) {
 			continue
 		}
 		n++
+		gotCount[key]++
 		reason, ok := frozen[key]
 		r.Check("C20.inventory", fname, strings.SplitN(key, "|", 2)[1], p.InstrPos(cs.Instr), ok, "every goroutine or timer the library starts is on the frozen list with a join obligation", firstNonEmpty(reason, "unknown spawn without a join obligation"))
 	}
